@@ -25,6 +25,7 @@ TOLERANCES = {"rotation": "geodesic angle <= 1e-6 rad (float64 algebra)", "posit
 ASSUMPTIONS = ["Euler convention for order='xyz' is only checked through round trips and self-consistency "
                "(rotate_by_euler_angle == left-multiplication by from_euler), not pinned to an external convention",
                "linear_transform is not modelled: the property does not state its semantics"]
+RULE += (" " + 'Also: one molecule given by a 1-D position and a single Rotation / 1-D quaternion / rotation vector / Euler angles / one matrix; quaternions that are not normalised; affine_matrix source points as float32 / uint16 / int32 arrays.')
 
 INTRINSIC = ["XYZ", "XZY", "YXZ", "YZX", "ZXY", "ZYX", "XYX", "XZX", "YXY", "YZY", "ZXZ", "ZYZ"]
 SEQS = INTRINSIC + [s.lower() for s in INTRINSIC]
@@ -75,13 +76,18 @@ def check_roundtrips(tag, m, R, d, out):
     n = len(R)
     rt = {
         "quat": lambda: Molecules.from_quat(pos, m.quaternion()),
+        # a quaternion need not be normalised (integer shorthands, averaged or rescaled quaternions)
+        "quat-scaled": lambda: Molecules.from_quat(pos, m.quaternion() * d["axscale"][0]),
         "rotvec": lambda: Molecules.from_rotvec(pos, m.rotvec()),
         "matrix": lambda: Molecules.from_matrix(pos, m.matrix()),
     }
     for name, fn in rt.items():
-        e = ang(fn().rotator, R)
+        mm = fn()
+        e = ang(mm.rotator, R)
         if not e <= 1e-6:
             out.append(viol(f"C11/roundtrip-{name}", f"{tag}: from_{name}({name}()) differs by {e:.3g} rad"))
+        if name == "quat-scaled":
+            check_axes(f"{tag} from_quat(scaled quaternion)", mm, R, out)
     if n == 1:
         # one molecule given by a 1-D position and a single (non-stacked) rotation / 1-D representation
         p1 = np.asarray(pos[0])
